@@ -3,7 +3,7 @@
 From Coq Require Import ZArith List QArith Qabs Bool Arith Lia Lqa.
 Require Import Base.Corr Model.C08_Rules Proofs.C08_RulesProofs.
 Import ListNotations.
-Open Scope Z_scope.
+Local Open Scope Z_scope.
 
 Lemma zpw_pos P e : 0 < P -> 0 < zpw P e.
 Proof. intros H. induction e as [|e IH]; simpl; [lia|]. apply Z.mul_pos_pos; assumption. Qed.
